@@ -184,3 +184,13 @@ check("C20",
       "every output database is compared with a solitary run. Free-running bursts up to 24/48 processes and concurrent readers of one finished file are judged per process.",
       TB + "CPython audit events are the observation points; schedules beyond three processes are sampled by free-running bursts.",
       "TLA+ spec (Concurrent) + TLC over all interleavings + TLC-generated schedules imposed on real processes + trace validation (Trace_Concurrent)")
+
+check("C01",
+      "ImportModel.tla composes the other modules into the whole pipeline: window -> per-line Infer -> Choose -> ParseWith(D) per line -> GffDB!Create -> PrintAll with the "
+      "stored dialect, and defines Consistent(file) declaratively (every line in the C07 grammar under one dialect d, the window's vote recovers everything the file exhibits of "
+      "d, every line's keys compatible with the first-seen order). TLC checks StoredOnce, PrintIdentity and ReimportEquivalent for every file of 1..2 (quick) / 3 (thorough) "
+      "lines over an 8-entry attribute menu x 12 column shapes x 36 dialects x checklines 0..2, and prints each file with the expected dialect, stored rows and printed text. "
+      "Each is imported by the code (file and :memory:, keep_order, sort_attribute_values), reopened from disk and re-imported from its own print; random Unicode candidate "
+      "files and the first lines of 25 repository data files are predicted by the same model (Gen_Import) and compared row by row.",
+      TB + "Files consist of feature lines; coordinates are '.' or canonical decimals.",
+      "TLA+ composed spec (ImportModel over AttrSyntax/Dialect/GffDB) + TLC fidelity theorems over small files x dialects + spec-predicted content for generated and real files compared with the code")
